@@ -261,4 +261,26 @@ theorem pair_adapters_trim {a1 a2 ads1 ads2 : List Matchable} {f1 f2 : Bool}
       simpa [this] using h1.1.symm
     · have : (Action.trim == Action.lowercase) = false := rfl
       simpa [this] using h2.1.symm
+/-- **Renaming keeps the mates recognisable as a pair**: `PairedEndRenamer` only accepts pairs whose ids match (dnaio's rule: equal up to
+    the first blank, a final `1`/`2`/`3` on both ignored) and only produces such pairs — otherwise the run stops with an error instead of
+    writing records that no longer belong together by name. -/
+theorem paired_rename_keeps_ids_matched (a1 a2 : List Matchable) (t1 t2 : List Tok) (r1 r2 o1 o2 : Read) (i j : Info × Info)
+    (evs : List Event) (h : applyP a1 a2 (.pairedRename t1 t2) (r1, r2) i = .ok ((o1, o2), j, evs)) :
+    recordNamesMatch r1.name r2.name = true ∧ recordNamesMatch o1.name o2.name = true ∧
+    o1.seq = r1.seq ∧ o1.qual = r1.qual ∧ o2.seq = r2.seq ∧ o2.qual = r2.qual := by
+  obtain ⟨i1, i2⟩ := i
+  simp only [applyP] at h
+  split at h
+  · simp at h
+  · rename_i hm
+    split at h
+    · split at h
+      · simp at h
+      · rename_i hm2
+        simp only [Except.ok.injEq, Prod.mk.injEq] at h
+        obtain ⟨⟨rfl, rfl⟩, _, _⟩ := h
+        exact ⟨by simpa using hm, by simpa using hm2, rfl, rfl, rfl, rfl⟩
+    · simp at h
+    · simp at h
+
 end Cutadapt.C05
